@@ -472,7 +472,11 @@ func (c *Ctx) hookSummary(b string, f *ssa.Function, depth int) []opSummary {
 				truth = !truth
 			}
 			// keep guards about hook parameters / client state; drop plumbing (err checks, range loops)
-			keep := t == "expire" || strings.HasPrefix(t, "r == ") || strings.Contains(t, "StopCause") || t == "h.db == nil"
+			keep := t == "expire" || strings.HasPrefix(t, "r == ") || strings.HasPrefix(t, "r < ") || strings.HasPrefix(t, "r > ") || strings.Contains(t, "StopCause") || t == "h.db == nil" ||
+				// a guard on state the hook keeps for itself (a cache, a flag) or on the hook's own parameters other than
+				// plumbing: the siblings would have to share it
+				(strings.Contains(t, "h.") && !strings.Contains(t, "h.db") && !strings.Contains(t, "h.Log") && !strings.Contains(t, "h.config") && !strings.Contains(t, "h.ctx")) ||
+				strings.Contains(t, "errors.Is(err,")
 			if !keep {
 				continue
 			}
@@ -483,8 +487,20 @@ func (c *Ctx) hookSummary(b string, f *ssa.Function, depth int) []opSummary {
 			}
 			gs = append(gs, t)
 		}
+		// an operation that can be skipped depending on state the hook keeps for itself (a cache of written records,
+		// a flag): the siblings do not share that state, so the operation is conditional here and not there
+		for _, b := range f.Blocks {
+			t, _, ok := condOf(b)
+			if !ok || !strings.Contains(t, "h.") || strings.Contains(t, "h.db") || strings.Contains(t, "h.Log") || strings.Contains(t, "h.config") || strings.Contains(t, "h.ctx") {
+				continue
+			}
+			last := b.Instrs[len(b.Instrs)-1]
+			if _, hit := (&PathQuery{Fn: f, From: last, Target: anyReturn, Barrier: isIns(ins)}).Find(); hit != nil && reachableFrom(last, ins) {
+				gs = append(gs, "skippable-on-hook-state:"+t)
+			}
+		}
 		sort.Strings(gs)
-		return gs
+		return dedup(gs)
 	}
 	for _, ins := range instrs(f) {
 		cc := callOf(ins)
